@@ -488,6 +488,13 @@ class Exec(ExprMixin, HeapMixin, StmtMixin, CallMixin, BuiltinMixin):
         pats = [last_pat] if mentions_all(last_pat) else [z3.MultiPattern(*[p for _m, p in members])]
         return V(BOOL, z3.ForAll(vars_, z3.Implies(z3.And(*[m for m, _p in members]), body), patterns=pats))
 
+    def spec_yielded(self, e, st):
+        """yielded(): the list of values a generator under contract has yielded so far (its final value is `result`)."""
+        v = st.locals.get("$yield")
+        if v is None:
+            raise Unsupported("yielded() outside a generator under contract")
+        return v
+
     def spec_loop_seq(self, e, st):
         """loop_seq(k): the (snapshot) sequence iterated by for-loop number k of the function under contract."""
         k = e.args[0].value
